@@ -14,8 +14,8 @@ MCKmax == 1000000
 Signed(S) == S \cup {-x : x \in S}
 MCDivisors == [jj \in 0..6 |->
   Signed(CASE jj = 0 -> {1, 2, 3, 7, 10, 64, 360, 1000, 999983, 1000000}
-           [] jj = 1 -> {1, 3, 5, 10, 15, 25, 70}              \* 0.1 0.3 0.5 1 1.5 2.5 7
-           [] jj = 2 -> {1, 25, 75, 100, 125, 300, 999}        \* 0.01 0.25 0.75 1 1.25 3 9.99
+           [] jj = 1 -> {1, 3, 5, 7, 10, 15, 25, 70}           \* 0.1 0.3 0.5 0.7 1 1.5 2.5 7
+           [] jj = 2 -> {1, 5, 25, 75, 100, 125, 300, 999}     \* 0.01 0.05 0.25 0.75 1 1.25 3 9.99
            [] jj = 3 -> {1, 125, 375, 1000, 2500}              \* 0.001 0.125 0.375 1 2.5
            [] jj = 4 -> {1, 625, 3333, 10000}
            [] jj = 5 -> {7, 3125, 100000}
